@@ -376,7 +376,10 @@ def scen_vhdx(ctx, M):
             ctx.assume(Mv >= 256 * KiB)
             ctx.assume(Mv <= p.get('mmax', 8 * KiB * KiB))
         elif fam == 'backward':
-            ctx.assume(Mv < 256 * KiB)
+            # a pointer back into the area already streamed past, placed so
+            # that the table does not overwrite the ident or the region
+            # table itself
+            ctx.assume(AND(Mv >= 64, Mv <= 192 * KiB - 64 * KiB))
     # symbolically the family assumption on M must be in force before the
     # stream is read (the table segment is placed at M)
     if ctx.sym and mi is not None:
@@ -391,6 +394,9 @@ def scen_vhdx(ctx, M):
         for j in range(4):
             ctx.byte_var('io%d' % j)
         family(Mv)
+        if fam == 'backward':
+            ctx.assume(IO <= 4096)     # the size item stays clear of the
+            #                            region table as well
         lb = 256 * KiB if fam == 'forward' else None
         # later segments win where they overlap: the table wins over the
         # size item
@@ -403,6 +409,8 @@ def scen_vhdx(ctx, M):
     if not ctx.sym and mi is not None:
         Mv = S.le(HDR + 16 + 32 * mi + 16, 8)
         family(Mv)
+        if fam == 'backward' and 'vds' in mt:
+            ctx.assume(S.le(Mv + 32 + 32 * mt.index('vds') + 16, 4) <= 4096)
     if p.get('mcount') == 'sym' and mi is not None:
         mc = S.le(Mv + 10, 2)
         ctx.assume(OR(mc <= 2, mc >= 2047))
